@@ -14,6 +14,15 @@
 (*      same-type / other-type edges to the left (the regions' true windings)                      *)
 (*   V4 an edge is hot (has an output ring) iff ContribTable!ContribClosed holds for it            *)
 (*   V5 the windings return to 0 to the right of the last edge                                     *)
+(* Event Isects (hook H2): every intersection ProcessIntersectList processed during one Execute,  *)
+(*   <<e1.bot, e1.top, e2.bot, e2.top, pt, bottom y, top y of the scanbeam>> in processing order      *)
+(*   V6 in general position the sweep swaps exactly the pairs of input edges that properly cross,    *)
+(*      each pair once, whatever the clip type and fill rule                                         *)
+(*   V7 the point it uses is the exact crossing rounded (within one unit per axis) and lies in the    *)
+(*      scanbeam being processed; scanbeams are visited from larger to smaller y                      *)
+(* Event IsBig: the same record for one Execute of an arbitrary (large-coordinate) input:           *)
+(*   V7a whatever the input, the point used lies in the scanbeam being processed and between the    *)
+(*       ends of both edges (comparisons only: valid for any coordinates)                            *)
 (* These are statements about INTERNAL state: by the soundness policy (DESIGN.md 3.6) a failure    *)
 (* here is an engine-level divergence that directs the observable checks, not a verdict.           *)
 EXTENDS Geom, TLC, Json, IOUtils
@@ -53,8 +62,29 @@ TAel ==
          \* V4 only in general position: with coincident or touching edges (rectilinear walks) which of two coincident edges is hot is the engine's choice
          /\ (cs.gp => Chk(bad4 = {}, "ENGINE", "V4_hot_flag_differs_from_contribution_table", IF bad4 = {} THEN 0 ELSE CHOOSE j \in bad4 : TRUE))
          /\ Chk(SumDx(A, n + 1, 0) = 0 /\ SumDx(A, n + 1, 1) = 0, "ENGINE", "V5_windings_do_not_close", y)
+TIsects ==
+  /\ Ev.e = "Isects"
+  /\ UNCHANGED cs
+  /\ cs.gp =>
+      LET X == Ev.x  n == Len(X)
+          E == [i \in 1..Len(cs.edges) |-> <<cs.edges[i][1], cs.edges[i][2]>>]
+          wantPairs == {{i, j} : i \in 1..Len(E), j \in 1..Len(E)} \ {{i} : i \in 1..Len(E)}
+          crossing == {pr \in wantPairs : LET i == CHOOSE a \in pr : TRUE  j == CHOOSE b \in pr : b # i IN ProperCross(E[i], E[j])}
+          got == [k \in 1..n |-> {<<<<X[k][1], X[k][2]>>, <<X[k][3], X[k][4]>>>>, <<<<X[k][5], X[k][6]>>, <<X[k][7], X[k][8]>>>>}]
+          asEdges(pr) == {E[i] : i \in pr}
+          bad7 == {k \in 1..n : LET e == <<<<X[k][1], X[k][2]>>, <<X[k][3], X[k][4]>>>>  f == <<<<X[k][5], X[k][6]>>, <<X[k][7], X[k][8]>>>>
+                                 IN ~ (ProperCross(e, f) /\ LET c == CrossPt(e, f) IN Abs(X[k][9] * c[3] - c[1]) <= c[3] /\ Abs(X[k][10] * c[3] - c[2]) <= c[3] /\ X[k][10] <= X[k][11] /\ X[k][10] >= X[k][12])}
+      IN /\ Chk({got[k] : k \in 1..n} = {asEdges(pr) : pr \in crossing} /\ n = Cardinality(crossing), "ENGINE", "V6_swapped_pairs_are_not_the_crossing_pairs", <<n, Cardinality(crossing)>>)
+         /\ Chk(bad7 = {}, "ENGINE", "V7_intersection_point_is_not_the_rounded_crossing", IF bad7 = {} THEN 0 ELSE CHOOSE k \in bad7 : TRUE)
+         /\ Chk(\A k \in 1..(n - 1) : X[k][11] >= X[k + 1][11], "ENGINE", "V7_scanbeams_not_visited_bottom_up", 0)
+InBeam(x) == /\ x[12] <= x[10] /\ x[10] <= x[11]                                   \* top y <= pt.y <= bottom y (y grows downwards in the sweep)
+             /\ x[4] <= x[10] /\ x[10] <= x[2] /\ x[8] <= x[10] /\ x[10] <= x[6]         \* within both edges' y extent
+TIsBig == /\ Ev.e = "IsBig"
+          /\ UNCHANGED cs
+          /\ LET bad == {k \in 1..Len(Ev.x) : ~InBeam(Ev.x[k])}
+             IN Chk(bad = {}, "ENGINE", "V7a_intersection_point_outside_its_scanbeam", IF bad = {} THEN 0 ELSE Ev.x[CHOOSE k \in bad : TRUE])
 TCrash == Ev.e = "Crash" /\ UNCHANGED cs /\ Report("ANY", "call_did_not_return", Ev.sig)
 Init == l = 1 /\ cs = [gp |-> FALSE, ok |-> FALSE, edges |-> <<>>]
-Next == l <= Len(Tr) /\ l' = l + 1 /\ (TCase \/ TAel \/ TCrash)
+Next == l <= Len(Tr) /\ l' = l + 1 /\ (TCase \/ TAel \/ TIsects \/ TIsBig \/ TCrash)
 Spec == Init /\ [][Next]_<<l, cs>>
 =============================================================================
